@@ -11,7 +11,7 @@ from vlib import ref, tie, tol
 from vlib.runner import HarnessError, Refused, Violation, sut
 
 ID = "C12"
-BUDGET = {"quick": 960, "thorough": 10000}
+BUDGET = {"quick": 960, "thorough": 40000}
 RULE = ("Generated: circuits from every template family — region graphs (random binary tree, linear tree, fully "
         "factorised, quad tree 2/4, quad graph, Poon-Domingos) through build_circuit with sum_product in {cp, cp-t, "
         "tucker}, softmax weights, mixing or dense n-ary sums; image_data and tabular_data (random binary tree and "
